@@ -258,6 +258,10 @@ def run(prop, tier, seed, replay=None):
                                          % (r['replayed'], r['conforming']))
             for s in r['samples']:
                 ck.sample('random history on real code: ' + s)
+    if prop == 'C10' and not ck.violations:
+        # callback mode: Close from another goroutine / from inside OnData, callbacks exactly once (module Callback)
+        from checks import callback
+        callback.run('C10', tier, seed, ck=ck, finish=False)
     if tier == 'thorough' and not ck.violations:
         big = tlc.run('MC_Session', 'mc.cfg', timeout=1500, extra_files=mc_files([1, 2], 2, 1, 1, 1, True, INVS))
         if big.violation:
